@@ -28,7 +28,7 @@ class CHECK(FloCheck):
             "frame, 6 % of the clauses reuse an original of the same framer, 6 % one of any level/framer; 25 % of the main "
             "framers carry a named clone of a moot framer whose frame names an original that another frame of the chain "
             "names too (clone above / below, after a further original, two levels deep, or alone); `done me`, `done <aux>`; go on any/all/<aux> in frame … is done, "
-            "<aux> is done, tick counter, recurred. Non-trivial = a plain auxiliary is entered; distinct by program")
+            "<aux> is done, tick counter, recurred. Non-trivial = a plain auxiliary is entered; distinct by program. In 40 % of the framers the frames are declared in an order independent of the hierarchy (random or exactly reversed: children before parents, forward `in`/`under`/`go`/`first` references).")
     TRUSTED = ["correspondence: real Builder + Skedder vs the Lean interpreter (engine 'flo'), full traces; the tree is "
                "/repo with fixes D4, D3b, D3d applied",
                "the outcome of done-conditions is compared through the transitions they enable (correspondence); the oracle "
